@@ -323,7 +323,7 @@ pub fn run(ctx: &Ctx) -> Report
          with at least one live obligation after a user action (not the plain repeat); distinct by case hash");
     rep.assume("commands are deterministic functions of their declared sources; Distinct clock");
     rep.assume("obligations are asserted only from the harness's own record and its own cache audit; anything else may run");
-    let (cases, max_rules, max_ops) = ctx.tier.pick((12000u32, 6usize, 16usize), (150000, 12, 40));
+    let (cases, max_rules, max_ops) = ctx.tier.pick((30000u32, 6usize, 16usize), (150000, 12, 40));
     rep.absorb(drive::drive(ctx, 2, cases, || strategy(max_rules, max_ops), test_case));
     rep
 }
